@@ -423,3 +423,23 @@ def run_micro(ctx, quick, verbose=False):
                       "the observed outcomes" % len(mismatches),
                       {"theorem_or_correspondence": "impl != Syncvar.MicroAll (held schedule)", "first_mismatch": mismatches[0]}, no_input=True)
     return {"probes": len(probes), "mismatches": mismatches, "findings": findings}
+
+
+def replay_probe(ctx, probe):
+    """./check C03 --replay <file> for a micro-step probe [init, A, k, B, j]"""
+    drv = ctx.model_driver("c03micro_driver")
+    exe = ctx.link("c03_micro", ["c03_micro.c"], exclude=["syncvar.c"])
+    fix_ff, fix_nb = source_facts(core.REPO)
+    flags = ([] if fix_ff else ["--oldff"]) + ([] if fix_nb else ["--oldnb"])
+    p = (probe[0], probe[1], int(probe[2]), probe[3], int(probe[4]))
+    m = model_lines(drv, flags, [p])[0]
+    r = run_real(exe, [p], [m], 40.0)[0]
+    print("probe %s\n model (%s): %s\n real : %s" % (list(p), " ".join(flags) or "code as it is", m, r))
+    if r is None:
+        ctx.violation("micro:no-answer", "the harness gave no answer for the probe", {"probe": list(p)})
+        return
+    verdict, why = judge(p[0], p[1], p[3], r)
+    print(" oracle:", verdict, why)
+    if verdict != "ok":
+        sig = SIG_NB if verdict == "nb" else SIG_UAF if (verdict in ("stuck", "structure") and in_uaf_class(p[0], p[1], p[3])) else "micro:" + verdict
+        ctx.violation(sig, why, {"probe": list(p), "model": m, "real": r})
